@@ -892,6 +892,52 @@ def r6_iteration(chk, prog, eng, L):
     return count + len(its)
 
 
+def r9_iterator_distance(chk, prog):
+    """operator -( it1, it2) of the four iterator classes is the distance in iteration order, as for std::string
+    iterators: with position( it) = index (forward) / length - 1 - index (reverse) and position( end) = length, the
+    result is position( lhs) - position( rhs) whenever that is not negative.  The friend operators are evaluated
+    (Engine B) for every pair of positions of every text length 0 .. 4."""
+    from ..boolshape import Interp, NeedAtom, Unsupported, Throw, Return
+    fs = [f for f in prog.functions if f.short == 'operator-' and len(f.params) == 2 and f.body is not None and
+          all(c10.ITER.search((p.get('t') or '').replace('const ', '').replace(' &', '')) or
+              'FixedString' in (p.get('t') or '') and 'Iterator' in (p.get('t') or '') for p in f.params)]
+    chk.require(len(fs) >= 4, 'iterator difference operators found: %d' % len(fs))
+    END = c10.END
+    n_ok = 0
+    for f in sorted(fs, key=lambda x: (x.file, x.line, x.key)):
+        rev = 'ReverseIterator' in f.params[0]['t']
+        a, b = f.params[0]['name'], f.params[1]['name']
+        bad = None
+        for n in range(0, 5):
+            idx = list(range(n)) + [END]
+            for li in idx:
+                for ri in idx:
+                    def pos(i):
+                        return n if i == END else (n - 1 - i if rev else i)
+                    want = pos(li) - pos(ri)
+                    if want < 0:
+                        continue
+                    env = {a + '.mIndex': li, b + '.mIndex': ri, a + '.mpObject': 7, b + '.mpObject': 7}
+                    cbs = {'length': lambda i_, c, n=n: n, 'size': lambda i_, c, n=n: n}
+                    it = Interp(f, env, callbacks=cbs, prog=None)
+                    try:
+                        out = it.run(f.body)
+                    except Throw:
+                        out = ('throw', None)
+                    except (NeedAtom, Unsupported) as e:
+                        raise AnalysisBroken('%s is not interpretable: %s' % (f.key, getattr(e, 'key', e)))
+                    got = out[1] if out and out[0] == 'return' else out
+                    if isinstance(got, int):
+                        got &= (1 << 64) - 1
+                    if got != want and bad is None:
+                        bad = 'length %d, lhs at %s, rhs at %s: result %s, std::string gives %d' % (
+                            n, 'end' if li == END else li, 'end' if ri == END else ri, got, want)
+        n_ok += 1
+        chk.check(bad is None, 'R9', f.name, 'iterator difference is the distance in iteration order [%s]' % (
+            'reverse' if rev else 'forward'), f.loc(), bad or '')
+    return n_ok
+
+
 def run(chk):
     drv = os.path.join(VERIF, 'drivers', 'fixed_string.cpp')
     extra = ['-DVERIF_THOROUGH'] if chk.tier == 'thorough' else []
@@ -947,6 +993,8 @@ def run(chk):
         n_scan, n_cmp, unspec = r7_observers(chk, prog, L)
         chk.samples.append({'capacity': L, 'searching_observers_specified': n_scan, 'compare_overloads': n_cmp,
                             'observers_without_specification': unspec})
+    chk.rule('R9', 'iterator difference is the distance in iteration order', 4)
+    r9_iterator_distance(chk, prog)
     if eng.unsupported:
         chk.notes.append('constructs evaluated as opaque: %s' % sorted(set(eng.unsupported))[:12])
     chk.level = 'other'
